@@ -872,6 +872,8 @@ type meta struct {
 	RunCases   int            `json:"run_cases"`
 	MitmShards []string       `json:"mitm_shards"`
 	MitmCases  int            `json:"mitm_cases"`
+	GaugeShards []string      `json:"gauge_shards"`
+	GaugeCases int            `json:"gauge_cases"`
 	ShardSize  int            `json:"shard_size"`
 	Cases      int            `json:"cases"`
 	Events     int            `json:"events"`
@@ -906,6 +908,7 @@ func main() {
 	var scs []scenario
 	var rscs, sigscs []fwdRunScenario
 	var mscs []mitmScenario
+	var gscs []gaugeScenario
 	if *replay != "" {
 		raw, err := os.ReadFile(*replay)
 		if err != nil {
@@ -928,6 +931,10 @@ func main() {
 			} else {
 				rscs = []fwdRunScenario{rs}
 			}
+		} else if rp.Kind == "gauge" {
+			var gs gaugeScenario
+			json.Unmarshal(rp.Scenario, &gs) //nolint:errcheck
+			gscs = []gaugeScenario{gs}
 		} else if rp.Kind == "mitm" {
 			var ms mitmScenario
 			json.Unmarshal(rp.Scenario, &ms) //nolint:errcheck
@@ -942,6 +949,7 @@ func main() {
 		rscs = genRunScenarios(*tier)
 		sigscs = genSignalScenarios()
 		mscs = genMitmScenarios()
+		gscs = genGaugeScenarios()
 	}
 	results := make([]result, len(scs))
 	sem := make(chan struct{}, *par)
@@ -969,6 +977,14 @@ func main() {
 		go func(i int) {
 			defer wg.Done()
 			mres[i] = runMitm(mscs[i])
+		}(i)
+	}
+	gres := make([]gaugeResult, len(gscs))
+	for i := range gscs {
+		wg.Add(1)
+		go func(i int) {
+			defer wg.Done()
+			gres[i] = runGauge(gscs[i])
 		}(i)
 	}
 	wg.Wait()
@@ -1057,6 +1073,28 @@ func main() {
 		m.RunShards = append(m.RunShards, "c11run_000.v")
 		m.RunCases = len(rres)
 		m.Samples = append(m.Samples, rres[len(rres)/2])
+	}
+	if len(gres) > 0 {
+		gj, _ := os.Create(filepath.Join(*out, "gcases.jsonl"))
+		var gc []string
+		for _, gr := range gres {
+			b, _ := json.Marshal(gr)
+			gj.Write(append(b, '\n')) //nolint:errcheck
+			if gr.Err != "" {
+				m.Errors = append(m.Errors, gr.Sc.Name+": "+gr.Err)
+			}
+			gc = append(gc, coqGauge(gr))
+		}
+		gj.Close()
+		var sb strings.Builder
+		sb.WriteString("From G11 Require Import ShutdownCheck.\nOpen Scope Z_scope.\n")
+		sb.WriteString("Definition gcases : list gcase :=\n [" + strings.Join(gc, ";\n  ") + "].\n")
+		sb.WriteString("Open Scope N_scope.\n")
+		sb.WriteString("Definition M := Eval vm_compute in (@nil N).\nPrint M.\n")
+		sb.WriteString("Definition P := Eval vm_compute in (bad gcase_prop_ok gcases).\nPrint P.\n")
+		os.WriteFile(filepath.Join(*out, "c11gauge_000.v"), []byte(sb.String()), 0o644) //nolint:errcheck
+		m.GaugeShards = append(m.GaugeShards, "c11gauge_000.v")
+		m.GaugeCases = len(gres)
 	}
 	if len(mres) > 0 {
 		mj, _ := os.Create(filepath.Join(*out, "mcases.jsonl"))
